@@ -45,6 +45,31 @@ def fractional_amounts(ctx):
                                        "case": {"tps": tps, "amounts": [(a.cpu, a.ram) for a in asg], "tick": t}, "sig": {"clause": "conserved-fractional"}})
                 return
         ctx.sit("fractional_amount_runs")
+        # an overselling batch of fractional amounts (each fits, together they do not; the integer parts would fit) is refused as a whole
+        ex = Executor(1, rng.choice([1, 2, 3]), 64, tps, allow_memory_overcommit=False, multi_operator_containers=True)
+        pool = ex.pools[0]
+        cap = pool.max_cpu_pool
+        amounts = [cap - 0.25, 0.75] if rng.random() < 0.5 else [0.75] * (int(cap / 0.75) + 1)
+        batch = []
+        for i, cpu in enumerate(amounts):
+            pl = Pipeline(f"o{i}", Priority.BATCH_PIPELINE)
+            op = pl.new_operator(None)
+            op.add_segment(Segment(baseline_cpu_seconds=2 / tps, cpu_scaling="const", memory_gb=0.25, storage_read_gb=0))
+            pl.runtime_status()
+            batch.append(Assignment([op], cpu, 1, pl.priority, 0, pl.pipeline_id))
+        refused = False
+        try:
+            ex.run_one_tick([], batch)
+        except BaseException:
+            refused = True
+        ctx.coverage["evaluations"] += 1
+        ctx.sit("fractional_oversell_batches")
+        if not refused or pool.avail_cpu_pool != cap or pool.active_containers:
+            ctx.violations.append({"what": f"a batch of containers asking for {amounts} CPUs on a pool with {cap} free CPUs (together {sum(amounts)}) is "
+                                           f"{'accepted' if not refused else 'refused but leaves traces'}: {len(pool.active_containers)} containers started, "
+                                           f"{pool.avail_cpu_pool} CPUs free", "layer": "E", "case": {"tps": tps, "cpus": cap, "amounts": amounts},
+                                   "sig": {"clause": "oversell-fractional"}})
+            return
 
 
 def run(ctx):
